@@ -26,12 +26,13 @@ func innermostRangeHeader(in ssa.Instruction) *ssa.BasicBlock {
 }
 
 func checkC33(c *Ctx, r *Report) {
-	r.Explanation = "Decides structural necessary conditions of 'processors deliver every record at least once before checkpointing', for the Iceberg, SQL and skeleton processors: (R1) inside the loop over a partition's segments, the error branch of LoadOffset, Decode, LFS resolution and sink.Write never reaches the loop header again — a failed segment ends the cycle, so no later segment can be written and checkpointed past it; (R2) CommitOffset is reached only after sink.Write returned nil in the same iteration, and the committed offset is the Offset of the last element of the very slice that was written; (R3) every LoadOffset implementation answers 'nothing committed' with the constant -1 (never 0), matching filterRecords' strict record.Offset > committed comparison, so offset 0 is not dropped; (R4) the segment listers return an error of the footer check instead of treating the segment as absent. R1, R3 and R4 exposed the defects repaired by 083d87e, ea05310 and 3b76e55. Ordering of the listing itself and at-least-once across lease hand-over are not decided."
+	r.Explanation = "Decides structural necessary conditions of 'processors deliver every record at least once before checkpointing', for the Iceberg, SQL and skeleton processors: (R1) inside the loop over a partition's segments, the error branch of LoadOffset, Decode, LFS resolution and sink.Write never reaches the loop header again — a failed segment ends the cycle, so no later segment can be written and checkpointed past it; (R2) CommitOffset is reached only after sink.Write returned nil in the same iteration, and the committed offset is the Offset of the last element of the very slice that was written; (R3) every LoadOffset implementation answers 'nothing committed' with the constant -1 (never 0), matching filterRecords' strict record.Offset > committed comparison, so offset 0 is not dropped; (R4) the segment listers return an error of the footer check instead of treating the segment as absent; (R5) the threshold given to filterRecords is the Offset field of a per-iteration local whose only assignment is the result of LoadOffset, LoadOffset is asked about the Topic and Partition of the decoded segment (or of the lease both were compared with), and it cannot be skipped between the loop header and the filter — a checkpoint cached across segments or lease changes would filter one partition's records with another's offset. R1, R3 and R4 exposed the defects repaired by 083d87e, ea05310 and 3b76e55. Ordering of the listing itself and at-least-once across lease hand-over are not decided."
 	r.NotCovered = "that ListCompleted returns a partition's segments in offset order; lease hand-over between processor instances; sink idempotence"
 	r.rule("C33.R1", "a failed LoadOffset / Decode / LFS / sink.Write leaves the segment loop (no path back to the loop header)", 10)
 	r.rule("C33.R2", "CommitOffset only after a successful Write of this iteration; committed offset = last written record's offset", 6)
 	r.rule("C33.R3", "LoadOffset implementations return -1 when nothing is stored; filterRecords compares strictly", 7)
 	r.rule("C33.R4", "listers return footer-check errors", 2)
+	r.rule("C33.R5", "the filter threshold is the checkpoint loaded for this segment's topic/partition in this iteration", 1)
 
 	type proc struct {
 		mod, path, label string
@@ -157,6 +158,143 @@ func checkC33(c *Ctx, r *Report) {
 				r.viol("C33.R2", key, m.Pos(cm.Pos()), why)
 			}
 		}
+		// ---- R5 the filter threshold is the checkpoint loaded for this very segment, in this iteration
+		for _, fc := range findCalls(run, pkgP+".filterRecords") {
+			key := p.label + " Run: records are filtered against the checkpoint loaded for this segment in this iteration"
+			thr := fc.Common().Args[1]
+			why := ""
+			// the threshold is the Offset field of a local that holds nothing but LoadOffset's result
+			var holder *ssa.Alloc
+			for _, o := range origins(thr) {
+				u, ok := strip(o).(*ssa.UnOp)
+				if !ok {
+					if fl, ok2 := strip(o).(*ssa.Field); ok2 {
+						if ex, ok3 := fl.X.(*ssa.Extract); ok3 && ex.Tuple == ssa.Value(load[0].(*ssa.Call)) {
+							continue
+						}
+					}
+					why = "threshold " + describe(o) + " is not read from the checkpoint state"
+					break
+				}
+				fa, ok := u.X.(*ssa.FieldAddr)
+				if !ok {
+					why = "threshold " + describe(o) + " is not the Offset field of the loaded state"
+					break
+				}
+				if _, f, _, okf := fieldAddrInfo(fa); !okf || f != "Offset" {
+					why = "threshold is field " + describe(fa) + ", not Offset"
+					break
+				}
+				al, ok := fa.X.(*ssa.Alloc)
+				if !ok {
+					kind := fmt.Sprintf("%T", fa.X)
+					if _, isPhi := fa.X.(*ssa.Phi); isPhi {
+						kind = "a value carried from one loop iteration to the next"
+					}
+					why = "the state the threshold is read from is " + kind + ", not a per-iteration local: it can carry a checkpoint loaded earlier, for another partition or before a lease change"
+					break
+				}
+				holder = al
+			}
+			if why == "" && holder != nil {
+				nStore := 0
+				for _, ref := range *holder.Referrers() {
+					switch x := ref.(type) {
+					case *ssa.Store:
+						if x.Addr == ssa.Value(holder) {
+							nStore++
+							ex, ok := x.Val.(*ssa.Extract)
+							if !ok || ex.Tuple != ssa.Value(load[0].(*ssa.Call)) || ex.Index != 0 {
+								why = "the state local is assigned " + describe(x.Val) + ", not LoadOffset's result"
+							}
+						}
+					case *ssa.FieldAddr:
+						if faIsWrite(x) {
+							why = "field " + describe(x) + " of the loaded state is overwritten at " + m.Pos(x.Pos())
+						}
+					}
+				}
+				if nStore != 1 && why == "" {
+					why = fmt.Sprintf("the state local is assigned %d times", nStore)
+				}
+				if holder.Block() == nil || !header.Dominates(holder.Block()) || holder.Block() == header {
+					if why == "" && !blockInLoop(header, holder.Block()) {
+						why = "the state local lives outside the segment loop: its value survives from one segment (and lease) to the next"
+					}
+				}
+			}
+			// LoadOffset is asked about this segment's topic and partition
+			if why == "" {
+				la := load[0].Common().Args
+				var decode ssa.CallInstruction
+				for _, d := range findCalls(run, "~decoder.Decoder).Decode") {
+					decode = d
+				}
+				if decode == nil {
+					why = "no Decode call to compare the segment with"
+				} else {
+					da := decode.Common().Args
+					segOf := func(v ssa.Value, field string) ssa.Value {
+						_, f, base, ok := fieldOf(v)
+						if !ok || f != field {
+							return nil
+						}
+						return canonBase(base)
+					}
+					lt, lp := segOf(la[len(la)-2], "Topic"), segOf(la[len(la)-1], "Partition")
+					sameSeg := false
+					for _, a := range da {
+						if _, f, base, ok := fieldOf(a); ok && f == "SegmentKey" && lt != nil && canonBase(base) == lt {
+							sameSeg = true
+						}
+					}
+					if !sameSeg && lt != nil && lt == lp {
+						// or the lease the segment was matched against: both fields compared with the
+						// decoded segment's inside Run
+						var segBase ssa.Value
+						for _, a := range da {
+							if _, f, base, ok := fieldOf(a); ok && f == "SegmentKey" {
+								segBase = canonBase(base)
+							}
+						}
+						eq := map[string]bool{}
+						for _, b := range run.Blocks {
+							for _, in := range b.Instrs {
+								bo, ok := in.(*ssa.BinOp)
+								if !ok || (bo.Op != token.NEQ && bo.Op != token.EQL) {
+									continue
+								}
+								_, fx, bx, okx := fieldOf(bo.X)
+								_, fy, by, oky := fieldOf(bo.Y)
+								if !okx || !oky || fx != fy {
+									continue
+								}
+								cx, cy := canonBase(bx), canonBase(by)
+								if segBase != nil && ((cx == segBase && cy == lt) || (cy == segBase && cx == lt)) {
+									eq[fx] = true
+								}
+							}
+						}
+						sameSeg = eq["Topic"] && eq["Partition"]
+					}
+					if lt == nil || lp == nil || lt != lp || !sameSeg {
+						why = "LoadOffset is not called with the Topic and Partition of the segment that is decoded"
+					}
+				}
+			}
+			// and it cannot be skipped on the way from the loop header to the filter
+			if why == "" {
+				if found, _, path := search(SearchSpec{Start: Loc{header, 0}, Target: func(t ssa.Instruction) bool { return t == fc.(ssa.Instruction) },
+					Blocker: func(t ssa.Instruction) bool { return t == load[0].(ssa.Instruction) }}); found {
+					why = "LoadOffset can be skipped on the way to the filter: " + renderPath(m, path)
+				}
+			}
+			if why == "" {
+				r.ok("C33.R5", key, m.Pos(fc.Pos()), "")
+			} else {
+				r.viol("C33.R5", key, m.Pos(fc.Pos()), why)
+			}
+		}
 		// filterRecords strictness
 		if fr := needFn(m, r, "C33.R3", pkgP, "filterRecords"); fr != nil {
 			okF := false
@@ -272,4 +410,34 @@ func sameSliceValue(a, b ssa.Value) bool {
 	ua, ok1 := a.(*ssa.UnOp)
 	ub, ok2 := b.(*ssa.UnOp)
 	return ok1 && ok2 && ua.X == ub.X
+}
+
+// blockInLoop: b belongs to the natural loop of header (header dominates b and b reaches header).
+func blockInLoop(header, b *ssa.BasicBlock) bool {
+	if b == nil || !header.Dominates(b) {
+		return false
+	}
+	seen := map[*ssa.BasicBlock]bool{}
+	var dfs func(x *ssa.BasicBlock) bool
+	dfs = func(x *ssa.BasicBlock) bool {
+		if x == header {
+			return true
+		}
+		if seen[x] {
+			return false
+		}
+		seen[x] = true
+		for _, s := range x.Succs {
+			if dfs(s) {
+				return true
+			}
+		}
+		return false
+	}
+	for _, s := range b.Succs {
+		if dfs(s) {
+			return true
+		}
+	}
+	return false
 }
